@@ -136,6 +136,9 @@ type Tags struct {
 	E int    `db:"_x"`
 	F int    `db:"col_1"`
 	G int    `db:"é"`
+	H int    `db:"\"first.name\""`
+	I int    `db:"'f(x)'"`
+	J int    `db:"\"a b; c\""`
 }
 
 // MyV implements Valuer and Scanner.
@@ -365,7 +368,7 @@ var Entries = []Entry{
 	e(Deep3{}, "struct", false, "cx", "cy", "alt", "label", "floors", "owner", "site"),
 	e(Deep4{}, "struct", false, "cx", "cy", "alt", "label", "floors", "owner", "site", "tag", "last"),
 	e(EmployeeOffice{}, "struct", false, "id", "name", "city", "office_id"),
-	e(Tags{}, "struct", false, "名前", "9", "\"quoted\"", "'q k'", "_x", "col_1", "é"),
+	e(Tags{}, "struct", false, "名前", "9", "\"quoted\"", "'q k'", "_x", "col_1", "é", "\"first.name\"", "'f(x)'", "\"a b; c\""),
 	e(Kinds{}, "struct", false, "i", "i8", "u16", "i64", "s", "b", "f", "bs", "ps", "pi", "ns", "ni", "v", "pv", "anyf", "mi", "ms"),
 	e(EmbTagged{}, "struct", false, "myv", "z"),
 	e(EmbUnexp{}, "struct", false, "y"),
